@@ -232,7 +232,7 @@ def handle(req):
         return count_pages(req["src"], req.get("password", ""))
     if op == "tokens":
         from ..realise.puritydocs import token_table
-        return token_table()
+        return token_table(req.get("part", "h"))
     if op == "pid":
         return os.getpid()
     raise ValueError("unknown op %r" % op)
